@@ -136,10 +136,17 @@ def _apply_common(piece, blk):
         # anchor = `<callee>(`; if the first argument of that call is a closure `|p, ..| body` (or
         # `move |..|`), its body is wrapped in braces and given the contract `spec`, in which $1 is
         # the first parameter's name. Absent call: nothing to do. Call without closure: hint skipped.
+        nth = None
+        mm = re.search(r'\s@(\d+)$', anchor)
+        if mm:
+            nth = int(mm.group(1))
+            anchor = anchor[:mm.start()].strip()
         hits, n = piece.find(anchor, unique=False, what='closure_spec')
         if len(hits) == 0:
             continue
         s = piece.src.s
+        if nth is not None and nth < len(hits):
+            hits = [hits[nth]]
         if len(hits) > 1:
             piece.counts['hint_skipped'] = piece.counts.get('hint_skipped', 0) + 1
             continue
